@@ -207,7 +207,7 @@ func c12Equal(a, b interface{}, loc string, multi map[string]bool) bool {
 
 func c12Run(c *Ctx) {
 	mustBeDefault(c)
-	c.S.Rule = "cases = (Map, list of key pairs): every Map template with <= N nodes over keys {a,ab,k} (lists, empty containers, null leaves) x every single pair old:new with old over paths of <= 2 steps from {a,b,k,z,*,a[0],k[1]} and new over {x,y,x.y,x.z}, the old shorthand, keys and pair parts with blanks at their edges (Maps over keys {a, \" a\", \"a \"}: a key is the exact string), and malformed pairs (a:, :a, a:b:c, a:b*, a:b[0], z:x*, z:y[0]); every list of two pairs from a reduced pair set (incl. equal and extending new paths) on Maps with <= M nodes; every list of three pairs over {a:x, ab:x, k:x, a:x.y, ab:x.y, k:x.y, *:x} on Maps with <= 4 nodes; a wide family (lists of 31, 32, 33, 64, 65 members under the old path). Oracle: receiver deep-equal to its copy AND no monitored store into any container reachable from the receiver; malformed => error; exact content (reference projection built from ValuesForPath on a pristine copy) when no new path equals or extends another. Ascending and descending map order. non-trivial = non-empty result."
+	c.S.Rule = "cases = (Map, list of key pairs): every Map template with <= N nodes over keys {a,ab,k} (lists, empty containers, null leaves) x every single pair old:new with old over paths of <= 2 steps from {a,b,k,z,*,a[0],k[1]} and new over {x,y,x.y,x.z}, the old shorthand, keys and pair parts with blanks at their edges (Maps over keys {a, \" a\", \"a \"}: a key is the exact string), and malformed pairs (a:, :a, a:b:c, a:b*, a:b[0], z:x*, z:y[0]); every list of two pairs from a reduced pair set (also on Maps of 6 nodes over {a,k} that hold a mixed list - a simple value before a map - below the top level) (incl. equal and extending new paths) on Maps with <= M nodes; every list of three pairs over {a:x, ab:x, k:x, a:x.y, ab:x.y, k:x.y, *:x} on Maps with <= 4 nodes; a wide family (lists of 31, 32, 33, 64, 65 members under the old path). Oracle: receiver deep-equal to its copy AND no monitored store into any container reachable from the receiver; malformed => error; exact content (reference projection built from ValuesForPath on a pristine copy) when no new path equals or extends another. Ascending and descending map order. non-trivial = non-empty result."
 	c.S.Assumptions = []string{"ValuesForPath itself is validated by C07; the content oracle uses it on a pristine copy as the property states", "lists produced from wildcard old paths are compared as multisets"}
 	n, n2 := 5, 4
 	if c.Thorough {
@@ -278,6 +278,39 @@ func c12Run(c *Ctx) {
 	gb.rootMaps(4, func(t *T) {
 		for _, s := range []string{" a:x", "a :x", "a:x", "a: x", "a:x ", " a", "a ", "a.a :x", " a.a:x.y", "a : x", "*: x", " a.*:x"} {
 			run(t, []string{s})
+		}
+	})
+	// mixed lists below the top level (a simple value before a map, as a repeated tag that is once a leaf and once
+	// complex decodes): every list of two pairs from the reduced set, on Maps one node larger
+	var mixedBelow func(t *T, depth int) bool
+	mixedBelow = func(t *T, depth int) bool {
+		if t.Kind == 'L' && depth >= 2 {
+			leafSeen := false
+			for _, k := range t.Kids {
+				if k.Kind == 'v' {
+					leafSeen = true
+				} else if leafSeen && k.Kind == 'M' && len(k.Kids) > 0 {
+					return true
+				}
+			}
+		}
+		for _, k := range t.Kids {
+			if mixedBelow(k, depth+1) {
+				return true
+			}
+		}
+		return false
+	}
+	gm := newGen(GenP{Keys: []string{"a", "k"}, MaxList: 2, MaxKeys: 2, EmptyList: false, EmptyMap: false, ListInList: false})
+	gm.rootMaps(6, func(t *T) {
+		if !mixedBelow(t, 0) {
+			return
+		}
+		c.Count("mixed_list_templates", 1)
+		for _, p1 := range reduced {
+			for _, p2 := range reduced {
+				run(t, []string{p1, p2})
+			}
 		}
 	})
 	// three pairs: the same new path twice (scalar and container values in either order) and a pair extending it
